@@ -149,6 +149,8 @@ fn gen_rules(r: &mut Rng) -> Vec<String> {
             2 => format!("example.com##{}", sel),
             3 => format!("example.com,~sub.example.com##{}", sel),
             4 => format!("example.com#@#{}", sel),
+            // actions on rules with / without a positive location
+            5 => format!("{}##{}{}", r.pick(&["", "", "~example.com", "~foo.*", "example.com", "example.com,~sub.example.com"]), sel, r.pick(&[":remove()", ":style(color: red)", ":remove-attr(href)", ":remove-class(sticky)"])),
             _ => format!("##{}", sel),
         };
         if !v.is_empty() && r.chance(1, 8) {
@@ -233,6 +235,25 @@ fn generic_partition_mismatches(lines: &[String]) -> Vec<String> {
         }
         let locs: Vec<&str> = l[..i].split(',').filter(|x| !x.is_empty()).collect();
         let text_generic = locs.iter().all(|x| x.starts_with('~'));
+        // an action (:style / :remove / :remove-attr / :remove-class) needs a positive location: a rule
+        // without one is rejected, it never becomes a generic hide selector
+        let sel_text = &l[i + 2..];
+        let has_action = [":style(", ":remove()", ":remove-attr(", ":remove-class("].iter().any(|a| sel_text.contains(a)) && sel_text.ends_with(')');
+        if has_action {
+            // without any location: rejected (a generic action is not supported); with locations
+            // (negations included): a host-specific rule, never a generic hide selector
+            let parsed = parse_filter(l, false, Default::default());
+            if locs.is_empty() {
+                if parsed.is_ok() {
+                    out.push(format!("the rule {:?} carries an action but no location at all: it must be rejected, the crate accepts it", l));
+                }
+            } else if let Ok(ParsedFilter::Cosmetic(f)) = parsed {
+                if f.hidden_generic_rule().is_some() {
+                    out.push(format!("the rule {:?} carries an action: it is host-specific, but the crate derives a generic hide rule from it", l));
+                }
+            }
+            continue;
+        }
         if let Ok(ParsedFilter::Cosmetic(f)) = parse_filter(l, false, Default::default()) {
             let Some(sel) = f.plain_css_selector() else { continue };
             let crate_generic = if f.has_hostname_constraint() { f.hidden_generic_rule().and_then(|h| h.plain_css_selector().map(|s| s.to_string())) } else { Some(sel.to_string()) };
